@@ -233,7 +233,7 @@ def body_conditional(I, X, n=1, header="if-none-match", lm="none", ims="none", s
     hdr_weak = X.flag("hdr_weak")
     if shape == "one":
         listed = [(other, hdr_weak)]
-    elif shape == "two":
+    elif shape in ("two", "two-spaced"):
         listed = [("zz", False), (other, hdr_weak)]
     elif shape == "star":
         listed = "*"
@@ -246,7 +246,8 @@ def body_conditional(I, X, n=1, header="if-none-match", lm="none", ims="none", s
     else:
         text = ""
         for i, (t, w) in enumerate(listed):
-            text = pconcat(text, ", " if i else "", 'W/"' if w else '"', t, '"')
+            # (RFC 7230 list syntax allows optional whitespace on both sides of the comma)
+            text = pconcat(text, ((" ,\t" if shape == "two-spaced" else ", ") if i else ""), 'W/"' if w else '"', t, '"')
     kw = {"etag": resp_etag, "last_modified": dates[lm]}
     if dates[ims] is not None:
         kw["http_if_modified_since"] = http_date(dates[ims])
@@ -381,7 +382,7 @@ def obligations(tier, seed):
         add(f"conditional_dates[lm_month={lm_m},ims_month={ims_m},zone={zone},{kind}]", "body_conditional_dates",
             {"lm_month": lm_m, "ims_month": ims_m, "zone": zone, "lm_kind": kind}, False, 1500)
     for header in ("if-none-match", "if-match"):
-        for shape in ("one", "two", "star", "absent"):
+        for shape in ("one", "two", "two-spaced", "star", "absent"):
             for lm, ims in [("none", "none"), ("equal", "equal"), ("equal-subsec", "equal"), ("after", "equal"), ("before", "equal"),
                             ("equal-offset", "equal"), ("naive-equal", "equal"), ("equal", "none")]:
                 for n in ([1] if quick else [1, 2]):
